@@ -820,7 +820,8 @@ class MarkdownNormalizer(Renderer):
 
     def render_table_cell(self, element: gfm_elements.TableCell) -> str:
         """Render a cell within a GFM table row."""
-        return self.render_children(element).replace("|", "\\|")
+        # Runs of spaces collapse to one, as they do in wrapped paragraphs.
+        return re.sub(r"[ \t]{2,}", " ", self.render_children(element)).replace("|", "\\|")
 
     def render_url(self, element: gfm_elements.Url) -> str:
         """For GFM autolink URLs, just output the URL directly."""
